@@ -49,7 +49,8 @@ def fill(claim, na):
           "DESIGN.md 3/C19")
     claim("C11",
           "path-sensitive typestate over the CFG (flush -> good-state test -> return 0) through main and its status "
-          "helper; census of stream-state resets and direct stream-buffer use; typestate of every local ofstream "
+          "helper; census of stream-state resets (on std::cout or on any reference/pointer to the base ostream) and direct "
+          "stream-buffer use; typestate of every local ofstream "
           "(close, then tested good, on every non-failure scope exit); flush+ferror typestate in bbcbasic_to_text main",
           "Decides the structural part for every output length and failure offset: exit status 0 is only reachable on "
           "paths where the output streams were flushed/closed and afterwards found good. Behaviour of the C++/C "
@@ -59,7 +60,8 @@ def fill(claim, na):
     claim("C09",
           "must-dataflow on the CFG: EOF tested before any use of a getc result, short-fread edge leaves with failure and "
           "dominates the line decoder; static-storage write census; discarded-result and sticky-exit-status rules; "
-          "table/override contradiction folded per dialect",
+          "table/override contradiction folded per dialect; CFG reachability rule for multi-byte token handlers (success "
+          "only through an edge establishing that the follow-on byte exists)",
           "Decides the structural root causes for every input and truncation point (no byte is fabricated from EOF, no "
           "stale buffer content reaches the decoder, failures reach a sticky exit status, no cross-file state). The "
           "prefix relation itself is not decided. One known finding (0x7F) is listed.",
@@ -69,9 +71,12 @@ def fill(claim, na):
           "decoder typestate on the CFG: must-facts with Boolean unit propagation (ID CRC and ID decode before the "
           "record state, data CRC before a push), path-sensitive tracking of the state variable across loop "
           "iterations (held ID consumed once), dominance of appends by track validation, sibling rule on the flux "
-          "adapters (address-based lookup), bounded ID-to-data-mark distance in the FM and MFM decoders",
+          "adapters (address-based lookup), bounded ID-to-data-mark distance in the FM and MFM decoders, def-use of every "
+          "CRC register read up to its zero test (no mask/narrowing), must-facts for the per-sector track checks",
           "Decides the gating clauses for every bit-stream: no sector is yielded without both CRC checks having "
-          "succeeded on that path, and the image adapters look sectors up by recorded address. Does not decide what "
+          "succeeded on that path (each a zero test of the whole CRC register), a data field is only accepted close to "
+          "its ID field, every sector of a track is validated, and the image adapters look sectors up by recorded "
+          "address. Does not decide what "
           "scan_for finds in the bits (sync constants, bit order).",
           "Trusts the CRC helpers' arithmetic (checked under C02) and clang's CFG.",
           "DESIGN.md 3/C06")
@@ -98,18 +103,22 @@ def fill(claim, na):
     claim("C02",
           "bit-provenance abstract domain (each result bit an XOR-affine form of symbolic catalogue bits) over every "
           "metadata accessor, the catalogue-header constructor, sign_extend and the CRC step; source-order and "
-          "sign-extension-use rules on the info line and .inf writer",
+          "sign-extension-use rules on the info line and .inf writer; sibling-agreement rule on cat's tests for the "
+          "current directory (sort comparator vs. listing loop)",
           "Decides the field-decoding clauses exhaustively (all 2^64 metadata values, all header bytes): every field "
           "shown by info/cat/.inf comes from exactly the documented bits; sign extension and CRC-16 are the documented "
-          "functions. Column formatting, cat's sort order and 'each file exactly once' are not decided.",
+          "functions; cat's sorter and printer classify 'current directory' by the same exact comparison. Column "
+          "formatting, the rest of cat's sort order and 'each file exactly once' are not decided.",
           "Trusts the transcription of the Acorn DFS layout and the domain's transfer functions.",
           "DESIGN.md 3/C02")
     claim("C01",
           "bit-provenance domain for the start-sector/length fields; provenance of the media argument of every "
           "body read (call-graph, through locals and parameters); structural accounting rule of the sector walk "
-          "with constant folding of the empty-file case; shape rule for last_sector()",
+          "with constant folding of the empty-file case; shape rule for last_sector(); contradiction rule on table-walking "
+          "loops (an early `continue` whose condition cannot change on the continue path)",
           "Decides structural clauses for every catalogue value: right bits, right volume, remaining-length "
-          "accounting, empty file hands over nothing. Unrecognised code shapes are reported as undecided (exit 2), "
+          "accounting, empty file hands over nothing, no table walk (Opus volume table) silently stops at its first "
+          "skipped entry. Unrecognised code shapes are reported as undecided (exit 2), "
           "never as a pass. Byte-identity of sector contents and the renderings of type/list/dump are not decided.",
           "Trusts the layout transcription and DFS::SECTOR_BYTES == 256 (folded from the source).",
           "DESIGN.md 3/C01")
